@@ -27,9 +27,7 @@ EXPRTYPES = ['FileLocation', 'LetValue', 'LetExpr', 'QueryPart', 'AccessQuery', 
              'GuardClause', 'WhenGuardClause', 'Block', 'TypeBlock', 'RuleClause', 'Rule', 'ParameterizedRule', 'RulesFile']
 
 
-def eval_common(g):
-    g.raw('prelude_common.rs')
-    g.raw('prelude_eval.rs')
+def eval_types(g):
     g.type(RULES + 'errors.rs', 'Error', derive=None, opaque_payloads='ExtError')
     g.type(RULES + 'mod.rs', 'Status')
     g.type(RULES + 'values.rs', 'CmpOperator')
@@ -42,6 +40,12 @@ def eval_common(g):
     for t in EXPRTYPES:
         sub = [('indexmap::IndexSet<String>', 'IndexSetString')] if t == 'ParameterizedRule' else None
         g.type(RULES + 'exprs.rs', t, derive=None, extra_subst=sub)
+
+
+def eval_common(g):
+    g.raw('prelude_common.rs')
+    g.raw('prelude_eval.rs')
+    eval_types(g)
     g.type(RULES + 'eval.rs', 'EvaluationResult', derive=None)
     g.raw('spec_eval.rs')
     g.trait('EvalContext', [(RULES + 'mod.rs', 'RecordTracer'), (RULES + 'mod.rs', 'EvalContext')], 'trait_EvalContext.spec')
@@ -107,7 +111,33 @@ def g_merge(repo):
     g.type(PV, 'PathAwareValue', derive=None)
     g.fn(None, PV, 'extend_str', impl=r'impl Path', stub=True, wrap_impl='impl Path')
     g.fn('U-merge', PV, 'merge', impl=r'impl PathAwareValue', spec='merge.spec', wrap_impl='impl PathAwareValue', props=['C17'])
+    g.unit_meta['L-merge'] = dict(function='lemma_lookup_concat, lemma_lookup_absent, lemma_union_commutes', file='/verif/verus/prelude_merge.rs',
+                                  clauses=dict(requires=0, ensures=3, invariant=0, decreases=2), props=['C17'], spec=None, lemma=True)
     return g
 
 
-GROUPS = {'merge': g_merge, 'status': g_status, 'exit': g_exit, 'eval': g_eval, 'eval_disp': g_eval_disp}
+def g_report(repo):
+    g = GroupBuild('report', repo)
+    g.raw('prelude_common.rs')
+    g.raw('prelude_report.rs')
+    eval_types(g)
+    EC = RULES + 'eval_context.rs'
+    g.type(EC, 'EventRecord', derive=None)
+    g.type(EC, 'FileReport', derive=None, extra_subst=[('BTreeSet<String>', 'BTreeSetString')])
+    g.text('''impl<'value> Default for FileReport<'value> {
+    #[verifier::external_body]
+    fn default() -> (r: Self) { unimplemented!() }
+}
+''', 'external Default for FileReport (stands for #[derive(Default)])')
+    g.raw('spec_status.rs')
+    g.raw('spec_report.rs')
+    g.fn(None, EC, 'report_all_failed_clauses_for_rules', spec='report_all_failed_clauses_for_rules.spec', stub=True)
+    g.fn(None, RULES + 'mod.rs', 'and', impl=r'impl Status', spec='status_and.spec', stub=True, wrap_impl='impl Status')
+    g.fn('U-simpl', EC, 'simplified_json_from_root', spec='simplified_json_from_root.spec', props=['C09'])
+    g.fn('U-combine', EC, 'combine', impl=r"impl<'value> FileReport<'value>", spec='combine.spec', wrap_impl="impl<'value> FileReport<'value>", props=['C09'])
+    g.unit_meta['L-part'] = dict(function='lemma_failed_names_has, lemma_partition, lemma_file_status_vs_partitions', file='/verif/verus/spec_report.rs',
+                                 clauses=dict(requires=0, ensures=6, invariant=0, decreases=1), props=['C09'], spec=None, lemma=True)
+    return g
+
+
+GROUPS = {'report': g_report, 'merge': g_merge, 'status': g_status, 'exit': g_exit, 'eval': g_eval, 'eval_disp': g_eval_disp}
